@@ -137,6 +137,28 @@ def runMv (lk reset : Bool) (who : Nat → Caller) (creatable : Nat → Bool) (s
   | [] => s
   | m :: ms => runMv lk reset who creatable (stepMv lk reset who creatable s m) ms
 
+/-- what a reconnect could do to the state the entry machine depends on.  The code's effect is
+`⟨false, false⟩` (the lock object is created once in `__init__`, `self.data` is never cleared,
+tasks inside `get_device_entry` are not cancelled): that this is so is established by the
+CORRESPONDENCE runs (a reconnect at every position of the timeline on a real AsyncProtocol), not by
+a theorem; the variants show that the model depends on each field. -/
+structure Recon where
+  freshLock : Bool       -- every connection starts with a new lock object
+  clearEntries : Bool    -- the device map is emptied when the connection is lost
+deriving Repr, DecidableEq
+
+def reconEffect (e : Recon) (s : St) : St :=
+  { s with lock := if e.freshLock then none else s.lock,
+           published := if e.clearEntries then (fun _ => none) else s.published }
+
+def stepMvWith (e : Recon) (who : Nat → Caller) (creatable : Nat → Bool) (s : St) : Mv → St
+  | .move i => step true who creatable s i
+  | .reconnect => reconEffect e s
+
+def runMvWith (e : Recon) (who : Nat → Caller) (creatable : Nat → Bool) (s : St) : List Mv → St
+  | [] => s
+  | m :: ms => runMvWith e who creatable (stepMvWith e who creatable s m) ms
+
 /-! ### replay of a harness schedule (external events, each followed by quiescence) -/
 
 /-- external events of the harness: `feed a m` = m more frames from address `a` arrive,
